@@ -877,6 +877,26 @@ class Errors:
             )
         return False
 
+    def is_line_ignored_for_code(
+        self, line: int, error_code: ErrorCode, *, file: str | None = None
+    ) -> bool:
+        """Would a "type: ignore" comment on this line suppress an error with this code?
+
+        Callers use this to skip computing message details (such as "did you mean"
+        suggestions) for errors that are going to be ignored anyway. A comment that lists
+        other codes does not suppress the error, so it must not change its text either.
+        """
+        ignores = self.ignored_lines.get(file or self.file, {})
+        if line not in ignores:
+            return False
+        tags = ignores[line]
+        return (
+            not tags
+            or error_code.code in tags
+            or error_code.sub_code_of is not None
+            and error_code.sub_code_of.code in tags
+        )
+
     def is_error_code_enabled(self, error_code: ErrorCode) -> bool:
         current_mod_disabled = self.options.disabled_error_codes
         current_mod_enabled = self.options.enabled_error_codes
